@@ -23,5 +23,6 @@ sys.stdout.buffer.write((text + "\\n").encode("utf-8"))
 
 
 def run(first, second, cwd, again=False, env=None, timeout=300):
-    return subprocess.run([PY, "-c", SCRIPT, json.dumps([first, second, bool(again)])], capture_output=True, text=True, cwd=cwd,
-                          env=env or child_env(), timeout=timeout)
+    from .common import run_bounded
+    return run_bounded([PY, "-c", SCRIPT, json.dumps([first, second, bool(again)])], timeout=timeout, capture_output=True, text=True, cwd=cwd,
+                       env=env or child_env())
